@@ -679,3 +679,48 @@ Theorem C01_loc_guard_needed :
   pname (pack [[120]]) /\ loc_okb [0; 37] = false.
 Proof. exact loc_guard_needed. Qed.
 Print Assumptions C01_loc_guard_needed.
+
+(* ==================================================================================
+   C01_file_level with the CONCRETE accumulator (Model/Accum.v, Proofs/AccumLink.v).
+   The accumulator is no longer a parameter: it is what Codec.Acc.MarshalMap emits in the
+   configuration of each compiler -
+     cdb.CreateCDB          prefix-set records \000/ \0004 \0006 (Accum.marshalPrefixSets), % lines emit
+                            their own \000% records (NoRnetOutput = false), features record of v1 keys;
+     rdb initCodec          NoPrefixSets, NoRnetOutput, Ranger enabled: the range-point records
+                            \000\000\000! map ip16 mlen -> location of Rearranger.Rearrange for every map
+                            with subnet lines (SubnetRanger.MarshalMap; C03's model of Rearrange, sort.Slice
+                            abstract), features record of the key layout.
+   [side_ok] holds of both unconditionally, so C01_file_level needs no hypothesis about it; the
+   guard kvs_ok (C07: values shorter than 2^32 bytes) is left on the records of the LINES only.
+   ================================================================================== *)
+From DnsV Require Import Model.Accum Proofs.AccumLink.
+
+Theorem C01_side_ok_rdb : forall sort o serial v2 f,
+  side_ok (accum_rdb sort o serial) [Model.Preproc.feature_kv v2] f.
+Proof. exact side_ok_rdb. Qed.
+Print Assumptions C01_side_ok_rdb.
+Theorem C01_side_ok_cdb : forall o serial f, side_ok (accum_cdb o serial) [Model.Preproc.feature_kv false] f.
+Proof. exact side_ok_cdb. Qed.
+Print Assumptions C01_side_ok_cdb.
+
+Theorem C01_file_level_closed : forall (sort : list Model.Rearranger.point -> list Model.Rearranger.point) o serial f,
+  wf_file o serial f = true ->
+  kvs_ok (flat_map (recs_of bytes (conv_line o serial false false)) f) ->
+  kvs_ok (flat_map (recs_of bytes (conv_line o serial false true)) f) ->
+  forall L, loc_okb L = true -> wf_view L (declared_file o serial f) = true ->
+  forall q n ecs max x, wf_name n -> nlen (pack n) <= 255 -> lower_bytes (q_name q) = pack n ->
+  (q_edns q = None \/ q_edns q = Some 0) ->
+  (forall stream kvs st,
+     Permutation stream (records bytes (conv_line o serial false false) (accum_cdb o serial) [Model.Preproc.feature_kv false] f) ->
+     compile_cdb bytes (conv_line o serial false false) f stream = Ok kvs -> (forall k, get st k = vals_of k kvs) ->
+     serve CDB st q (LocOk L) ecs max = OReply x -> response_refines L (declared_file o serial f) n q ecs max x) /\
+  (forall db st,
+     rdb_compilation bytes (conv_line o serial true false) (accum_rdb sort o serial) [Model.Preproc.feature_kv false] f db ->
+     rdb_dump db st ->
+     serve RDB1 st q (LocOk L) ecs max = OReply x -> response_refines L (declared_file o serial f) n q ecs max x) /\
+  (forall db st,
+     rdb_compilation bytes (conv_line o serial true true) (accum_rdb sort o serial) [Model.Preproc.feature_kv true] f db ->
+     rdb_dump db st ->
+     serve RDB2 st q (LocOk L) ecs max = OReply x -> response_refines L (declared_file o serial f) n q ecs max x).
+Proof. exact file_level_closed. Qed.
+Print Assumptions C01_file_level_closed.
